@@ -484,7 +484,21 @@ def run(ctx: Ctx) -> None:
                         run_ = Run(scn, frame_id, dsd)
                         results = run_.run_all()
                         if an is None:
-                            an = PerceptionAnalyzer3D(run_.config, num_area_division=div)
+                            expected_frame = "base_link" if scn.task == "detection" else "map"
+                            if idx % 3 == 2 and frame_id == expected_frame:
+                                # the documented way in for recorded runs: the analyzer built from a scenario file (the
+                                # evaluation configuration written as yaml) with the number of area divisions asked for
+                                import yaml as _yaml
+
+                                spath = os.path.join(dsd.result_root, "scenario.yaml")
+                                cfg_plain = {k_: v_ for k_, v_ in scn.cfg.items() if k_ != "label_prefix"}
+                                with open(spath, "w") as fh:
+                                    _yaml.safe_dump({"Evaluation": {"PerceptionEvaluationConfig": {"evaluation_config_dict": cfg_plain}}}, fh)
+                                an = PerceptionAnalyzer3D.from_scenario(dsd.result_root, spath, div)
+                                ctx.count("C19.analyzers_from_scenario_file")
+                                ctx.check(an.num_area_division == div, "C19/analyzer_from_scenario_ignores_requested_area_division", dict(requested=div, got=an.num_area_division), "analyzer")
+                            else:
+                                an = PerceptionAnalyzer3D(run_.config, num_area_division=div)
                         if combine:
                             pooled += results
                             if s == n_scenes - 1:
